@@ -498,6 +498,9 @@ func (g *Gen) shadowable(inner *scope) []*varInfo {
 		if forbidden[v.name] || seen[v.name] || v.isFunc || !v.t.FirstOrder() || v.t.K == "unit" {
 			continue
 		}
+		if v.t.K == "union" && g.union(v.t.Name).carriesFunc() {
+			continue // neither printable nor comparable: an unused copy could not be made used
+		}
 		seen[v.name] = true
 		out = append(out, v)
 	}
